@@ -256,13 +256,17 @@ def proveAnswer (line : String) : String :=
   match line.splitOn "||" with
   | [head, a, b] =>
     match (head.splitOn " ").filter (· ≠ "") with
-    | ["prove", deg, d1, d2, d3, label, draws, ver] =>
-      match srsOf? deg d1 d2 d3, parseBytes? label, optionAll drawOf? (draws.splitOn ","), verName? ver with
-      | some (.ok srs), some label, some draws, some ver =>
+    | "prove" :: deg :: d1 :: d2 :: d3 :: label :: draws :: ver :: _ =>
+      let lite : Option (Except KErr (SRS × Nat)) :=
+        match deg.toNat?, drawOf? d1, drawOf? d2, drawOf? d3 with
+        | some deg, some a, some b, some c => some (SRS.setupLite deg [a, b, c])
+        | _, _, _, _ => none
+      match lite, parseBytes? label, optionAll drawOf? (draws.splitOn ","), verName? ver with
+      | some (.ok (srs, srsLen)), some label, some draws, some ver =>
         let sa := runProg a
         let sb := runProg b
         if sa.bad.isSome || sb.bad.isSome then "bad-op" else
-        match compile srs label sa.c with
+        match compile srs srsLen label sa.c with
         | .error e => "err:" ++ pErrName e
         | .ok k =>
           let vb := (k.verifier srs).toBytes
@@ -270,7 +274,11 @@ def proveAnswer (line : String) : String :=
           if ver == .v1 then s!"err:UnsupportedProvingVersion vh={vh}" else
           match prove k sb.c draws (ver == .v3) with
           | .error e => s!"err:{pErrName e} vh={vh}"
-          | .ok tr => s!"proof={showBytes tr.proof.toBytes} pis={showList tr.pis} vh={vh} calls={tr.drawsUsed}"
+          | .ok tr =>
+            -- completeness check in the model: the model verifier accepts the model prover's proof
+            let acc := (k.verifier srs).verify srs.x tr.proof tr.pis ver
+            s!"proof={showBytes tr.proof.toBytes} pis={showList tr.pis} vh={vh} calls={tr.drawsUsed}" ++
+              (if acc == .ok then " spec=ok" else " spec=REJECTED")
       | some (.error e), _, _, _ => "err:srs:" ++ e.name
       | _, _, _, _ => "bad-request"
     | _ => "bad-request"
